@@ -463,7 +463,7 @@ var allSplits = []string{
 	"sync:supply-interest-positive", "sync:borrow-interest-positive",
 	"liq:refused-within-ltv", "liq:ok", "liq:auction-started", "liq:several-auctions", "liq:rest-stays-no-cash", "liq:deposit-returned-to-borrower",
 	"liq:keeper-is-borrower", "liq:multi-denom-position",
-	"accrue:interest-positive", "accrue:skipped-rounds-to-zero", "accrue:reserves-exceed-cash-plus-borrows", "accrue:dt-zero",
+	"accrue:interest-positive", "accrue:skipped-rounds-to-zero", "accrue:reserves-exceed-cash-plus-borrows", "accrue:cash-plus-borrows-equals-reserves", "accrue:dt-zero",
 	"msg:malformed-refused", "price:none", "borrow:takes-reserve-coins",
 }
 
@@ -580,6 +580,10 @@ func (w *world) countSplits(op Op, cls Class, p *pre, before, after *snap, split
 				if before.tbor[d].Sign() > 0 && op.T > 0 && after.tbor[d].Cmp(before.tbor[d]) == 0 &&
 					before.prev[d] != nil && after.prev[d] != nil && before.prev[d].Cmp(after.prev[d]) == 0 {
 					mark("accrue:skipped-rounds-to-zero")
+				}
+				if op.T > 0 && before.tbor[d].Sign() != 0 && before.prev[d] != nil &&
+					new(big.Int).Add(before.bal[hardAcc][d], before.tbor[d]).Cmp(before.tres[d]) == 0 {
+					mark("accrue:cash-plus-borrows-equals-reserves") // the state that used to divide by zero
 				}
 				if w.reservesExceed(before, d) && after.tbor[d].Cmp(before.tbor[d]) > 0 {
 					mark("accrue:reserves-exceed-cash-plus-borrows")
